@@ -1,6 +1,5 @@
 import datetime
 import decimal
-from io import BytesIO
 import os
 import time
 from typing import Dict, Union
@@ -172,40 +171,16 @@ def prepare_fixed_decimal(data, schema):
     for digit in digits:
         unscaled_datum = (unscaled_datum * 10) + digit
 
-    bits_req = unscaled_datum.bit_length() + 1
-
-    size_in_bits = size * 8
-    offset_bits = size_in_bits - bits_req
-
-    mask = 2**size_in_bits - 1
-    bit = 1
-    for i in range(bits_req):
-        mask ^= bit
-        bit <<= 1
-
-    if bits_req < 8:
-        bytes_req = 1
-    else:
-        bytes_req = bits_req // 8
-        if bits_req % 8 != 0:
-            bytes_req += 1
-
-    tmp = BytesIO()
-
     if sign:
-        unscaled_datum = (1 << bits_req) - unscaled_datum
-        unscaled_datum = mask | unscaled_datum
-        for index in range(size - 1, -1, -1):
-            bits_to_write = unscaled_datum >> (8 * index)
-            tmp.write(bytes([bits_to_write & 0xFF]))
-    else:
-        for i in range(offset_bits // 8):
-            tmp.write(bytes([0]))
-        for index in range(bytes_req - 1, -1, -1):
-            bits_to_write = unscaled_datum >> (8 * index)
-            tmp.write(bytes([bits_to_write & 0xFF]))
+        unscaled_datum = -unscaled_datum
 
-    return tmp.getvalue()
+    try:
+        return unscaled_datum.to_bytes(size, byteorder="big", signed=True)
+    except OverflowError:
+        # Too big for the fixed size: hand back the longer encoding so that the
+        # length check of the fixed type rejects it
+        bytes_req = (unscaled_datum.bit_length() + 8) // 8
+        return unscaled_datum.to_bytes(bytes_req, byteorder="big", signed=True)
 
 
 def prepare_uuid(data, schema):
